@@ -195,22 +195,27 @@ class GaussianUnitary(Compiler):
             name = operations.op.__class__.__name__
             params = par_evaluate(operations.op.p)
             modes = [modes_label.ind for modes_label in operations.reg]
+            # inverse (dagger) gates contribute the inverse transformation
+            dagger = getattr(operations.op, "dagger", False)
+            _inv = np.linalg.inv if dagger else (lambda S_G: S_G)
             if name == "Dgate":
                 alpha = params[0] * (np.exp(1j * params[1]))
+                if dagger:
+                    alpha = -alpha
                 rnet[dict_indices[modes[0]]] += 2 * alpha.real
                 rnet[dict_indices[modes[0]] + nmodes] += 2 * alpha.imag
             else:
                 if name == "Rgate":
                     Snet, rnet = _apply_symp_one_mode_gate(
-                        rotation(params[0]), Snet, rnet, dict_indices[modes[0]]
+                        _inv(rotation(params[0])), Snet, rnet, dict_indices[modes[0]]
                     )
                 elif name == "Sgate":
                     Snet, rnet = _apply_symp_one_mode_gate(
-                        squeezing(params[0], params[1]), Snet, rnet, dict_indices[modes[0]]
+                        _inv(squeezing(params[0], params[1])), Snet, rnet, dict_indices[modes[0]]
                     )
                 elif name == "S2gate":
                     Snet, rnet = _apply_symp_two_mode_gate(
-                        two_mode_squeezing(params[0], params[1]),
+                        _inv(two_mode_squeezing(params[0], params[1])),
                         Snet,
                         rnet,
                         dict_indices[modes[0]],
@@ -254,7 +259,7 @@ class GaussianUnitary(Compiler):
 
                 elif name == "BSgate":
                     Snet, rnet = _apply_symp_two_mode_gate(
-                        beam_splitter(params[0], params[1]),
+                        _inv(beam_splitter(params[0], params[1])),
                         Snet,
                         rnet,
                         dict_indices[modes[0]],
@@ -266,7 +271,7 @@ class GaussianUnitary(Compiler):
                     u = np.exp(1j * params[1])
                     U = 0.5 * np.array([[u * (v - 1), 1j * (1 + v)], [1j * u * (1 + v), 1 - v]])
                     Snet, rnet = _apply_symp_two_mode_gate(
-                        interferometer(U),
+                        _inv(interferometer(U)),
                         Snet,
                         rnet,
                         dict_indices[modes[0]],
@@ -279,7 +284,7 @@ class GaussianUnitary(Compiler):
                         [[np.sin(delta), np.cos(delta)], [np.cos(delta), -np.sin(delta)]]
                     )
                     Snet, rnet = _apply_symp_two_mode_gate(
-                        interferometer(U),
+                        _inv(interferometer(U)),
                         Snet,
                         rnet,
                         dict_indices[modes[0]],
